@@ -1,1 +1,4 @@
 """pv -- runtime monitors and workloads for the 18 semantic properties of trungdong/prov."""
+from pv import env as _env
+
+_env.activate()  # the library under test is always imported from PROV_SRC, before anything else can import it
